@@ -153,13 +153,33 @@ def check_permutations(ctx, rng):
             ('categories', ['x', 'y'], None), ('priority', 1, None), ('description', 'D', None),
             # names that differ only in case-insensitive-irrelevant ways a "smart" sort key might conflate
             ('x-slot-7', 'a', None), ('x-slot-07', 'b', None), ('x-slot-007', 'c', None), ('x-a', '1', None),
-            ('x-A1', '2', None), ('x-a01', '3', None), ('X-b_2', '4', None), ('x-b-2', '5', None)]
+            ('x-A1', '2', None), ('x-a01', '3', None), ('X-b_2', '4', None), ('x-b-2', '5', None),
+            # repeated names whose earlier value is empty or zero (falsy in Python, a value like any other here)
+            ('comment', '', None), ('percent-complete', 0, None), ('percent-complete', 50, None), ('x-empty', '', None),
+            ('x-empty', 'later', None)]
     k = rng.randint(2, 6)
     spec = rng.sample(pool, k)
     if rng.random() < 0.4:
         spec = rng.sample(pool[-8:], min(k, 4)) + rng.sample(pool[:-8], max(0, k - 4))
     kind = rng.choice(['Event', 'Event', 'Todo', 'Journal', 'FreeBusy', 'Alarm', 'Timezone', 'TimezoneStandard', 'Calendar'])
-    base = build_event(spec, range(k), kind).to_ical()
+    if rng.random() < 0.3:
+        pair = rng.choice([[('comment', '', None), ('comment', 'c2', None)], [('percent-complete', 0, None), ('percent-complete', 50, None)],
+                           [('x-empty', '', None), ('x-empty', 'later', None), ('x-empty', '', None)]])
+        spec = pair + [x for x in spec if x[0] != pair[0][0]][:max(0, k - len(pair))]
+        k = len(spec)
+        names = [s_[0] for s_ in spec]
+    built = build_event(spec, range(k), kind)
+    base = built.to_ical()
+    # every API call left its line: per name as many lines as calls, with sorting on and off
+    for flag in (True, False):
+        out = built.to_ical(sorted=flag).decode('utf-8', 'replace').replace('\r\n ', '')
+        got_names = [ln.split(':', 1)[0].split(';', 1)[0].upper() for ln in out.split('\r\n')[1:-2]]
+        for nm in {n.upper() for n, _, _ in spec}:
+            calls = sum(1 for n, _, _ in spec if n.upper() == nm)
+            if got_names.count(nm) != calls:
+                ctx.violation('repeated-property-lost', {'names': [s_[0] for s_ in spec], 'values': [repr(s_[1]) for s_ in spec], 'component': kind, 'sorted': flag},
+                              f'{calls} add() calls for {nm} but {got_names.count(nm)} lines in the output (sorted={flag}): {out!r}')
+                return
     names = [s[0] for s in spec]
     perms = list(itertools.permutations(range(k))) if k <= 5 else [rng.sample(range(k), k) for _ in range(60)]
     for p in perms:
